@@ -16,7 +16,7 @@ checks = {
  "C13": ("termmc", "exhaustive exploration of compositions with multi-cause nodes at every position, nested, x {local, k hops, unknowing hop}: tree semantics of Is/IsAny/As per node with branch order, leaf behaviour of Unwrap, branch preservation under transfer, visibility in %+v", "bounded by depth"),
  "C14": ("termmc", "exhaustive exploration of compositions; differential oracle against the real standard library errors.Is/As/Unwrap and pkg/errors.Cause", "agreement (not only implication) required on chains the other package can traverse"),
  "C15": ("termmc", "exhaustive exploration of compositions (local, decoded, opaque) on the real BuildSentryReport; counting and ordering relations between layers, stacks, exceptions, composition lines and type lines", "per-layer stacks obtained with the public GetReportableStackTrace"),
- "C16": ("callmc", "exhaustive enumeration of every exported stack-capturing / domain-computing function (cross-checked by an AST reachability scan) x depth 0..3 x 2 call paths through non-inlinable helpers in distinct packages", "compiler must not inline the //go:noinline helpers"),
+ "C16": ("callmc", "exhaustive enumeration of every exported stack-capturing / domain-computing function (cross-checked by an AST reachability scan) x depth 0..3 x 2 call paths through non-inlinable helpers in distinct packages; plus a schedule dimension: 2 (thorough 3) threads calling the domain / stack constructors concurrently from different packages (identical site files in 4 directories, 1-2 calls each, same site twice, same site from two threads), every interleaving up to the preemption bound (quick 2, thorough 3) under C18's controlled scheduler on the instrumented library, each from a stated prewarmed state and followed by a sequential re-check of every site; oracle: every call returns what it returns alone and names its own caller's package / frame; separate free-running -race pass of the same bodies", "compiler must not inline the //go:noinline helpers; scheduling points are library statement boundaries and sync/atomic operations"),
  "C17": ("vermc", "exhaustive exploration of code-version assignments (old/new/other-rename/unknowing) to sender, intermediary, receiver x all registration orders of rename chains of length <= 3 for leaf and wrapper types, on the real registries", "a 'process' is a registry + migration-table configuration installed around each encode/decode step"),
  "C18": ("schedmc", "stateless model checking of the real code under a controlled cooperative scheduler (scheduling point before every statement of every library function): every pair of observers on a shared error, all interleavings up to the preemption bound; oracle: result equals the solo result, no panic, no deadlock; separate free-running -race pass for data races", "interleavings finer than one source statement and data races are covered only by the auxiliary -race pass (dynamic analysis, not enumeration)"),
  "C19": ("termmc", "exhaustive exploration of compositions of list-contributing constructors with repeated / empty texts, local and after a hop, against an independent list model", "model written from the doc comments"),
@@ -26,7 +26,7 @@ tech = {
  "termmc": "explicit-state model checking of the implementation: bounded exhaustive enumeration of constructor/transport histories with reference-model oracles",
  "termmc+corpus": "explicit-state model checking of the implementation (bounded exhaustive enumeration) plus replay of the vetted corpus",
  "faultmc": "exhaustive fault enumeration on the real decoder",
- "callmc": "exhaustive enumeration of generated call paths on the real code",
+ "callmc": "exhaustive enumeration of generated call paths on the real code, plus stateless model checking of concurrent calls from different packages under a controlled scheduler with iterative preemption bounding",
  "vermc": "explicit-state exploration of version-assignment x registration-order configurations",
  "schedmc": "stateless model checking under a controlled scheduler with iterative preemption bounding",
  "rpcmc": "explicit-state exploration through a real in-memory gRPC service",
@@ -36,7 +36,7 @@ m = {
  "setup_cmd": "./setup.sh",
  "hooks": {
   "guard": "verif",
-  "enable": "go build -tags verif -overlay /verif/build/overlay.json (adds errbase/zz_verif_hooks.go); C18 additionally -tags verifsched -overlay /verif/build/overlay-sched.json (instrumented copies of the library + virtual scheduler package). Overlays are regenerated from /repo's working tree on every check run; nothing is committed to /repo for instrumentation",
+  "enable": "go build -tags verif -overlay /verif/build/overlay.json (adds errbase/zz_verif_hooks.go); C18 and the schedule dimension of C16 additionally -tags verifsched -overlay /verif/build/overlay-sched.json (instrumented copies of the library + virtual scheduler package). Overlays are regenerated from /repo's working tree on every check run; nothing is committed to /repo for instrumentation",
   "baseline_off_cmd": "for m in $(cat /w/out/gomods.txt); do MF=$(cd /repo/$m && . /w/out/goenv.sh && gomodflag); (cd /repo/$m && go test $MF -json -vet=off -count=1 -timeout 25m ./...); done",
   "source_commits": [],
   "add_only": True,
@@ -44,8 +44,8 @@ m = {
  "engines": [
   {"name": "termmc", "path": "mc/props + mc/tm", "serves_properties": ["C01","C02","C03","C04","C06","C07","C08","C09","C10","C11","C12","C13","C14","C15","C19"], "kind_free_text": "explicit-state exploration of constructor/transport histories on the real code"},
   {"name": "faultmc", "path": "mc/props/c05.go", "serves_properties": ["C05"], "kind_free_text": "decoder fault enumeration"},
-  {"name": "schedmc", "path": "mc/schedmc", "serves_properties": ["C18"], "kind_free_text": "controlled-scheduler interleaving exploration + free-running race pass"},
-  {"name": "callmc", "path": "mc/callmc", "serves_properties": ["C16"], "kind_free_text": "generated call-path programs"},
+  {"name": "schedmc", "path": "mc/schedmc", "serves_properties": ["C18", "C16"], "kind_free_text": "controlled-scheduler interleaving exploration + free-running race pass (instrumenter, scheduler and binaries shared with C16's schedule dimension, mc/callmc/conc + mc/callmc/concworker)"},
+  {"name": "callmc", "path": "mc/callmc", "serves_properties": ["C16"], "kind_free_text": "generated call-path programs; concurrent call sites in four packages explored under schedmc's scheduler"},
   {"name": "vermc", "path": "mc/vermc", "serves_properties": ["C17"], "kind_free_text": "version-assignment / registration-order exploration"},
   {"name": "rpcmc", "path": "mc/props/c20.go", "serves_properties": ["C20"], "kind_free_text": "term universe through a real in-memory gRPC service"},
   {"name": "corpus", "path": "mc/props/c09.go (postC09)", "serves_properties": ["C09"], "kind_free_text": "the repository's formatting corpus as reference model"},
